@@ -1,0 +1,15 @@
+//go:build verif
+
+// Machine-checked contracts for govc (see /verif/DESIGN.md). Comments only;
+// compiled only with the build tag "verif".
+
+package recovery
+
+// C01: "a panic ... the caller receives a non-success response". The deferred function of the
+// recovery middleware: whatever value a panic carries, the error handler is called exactly once,
+// with an error of the internal kind (which HandleError turns into the status of that kind, C12);
+// without a panic it is not called. (ghost log herr = ErrorHandler.HandleError)
+//@ func New$1$1$1
+//@   props C01
+//@   ensures rec != nil ==> herr.n == old(herr.n) + 1 && Is(herr.arg3[old(herr.n)], heimdall.ErrInternal)
+//@   ensures rec == nil ==> herr.n == old(herr.n)
